@@ -6,6 +6,7 @@ import (
 	"errors"
 	"fmt"
 	"github.com/pingcap/kvproto/pkg/kvrpcpb"
+	"github.com/tikv/client-go/v2/oracle"
 	"github.com/tikv/client-go/v2/tikvrpc"
 	"os"
 	"reflect"
@@ -95,6 +96,8 @@ func (w *World) newEngine(kind string) (storage.KvStorage, bool, error) {
 			if err != nil {
 				return nil, false, err
 			}
+			// (the clients' timestamp oracle can be made to fail below the adapter: World.TiKVOracleOutage)
+			store.SetOracle(&flakyOracle{Oracle: store.GetOracle(), w: w})
 			stores = append(stores, store)
 		}
 		st := itikv.NewKvStoreWithStorage(stores)
@@ -102,6 +105,22 @@ func (w *World) newEngine(kind string) (storage.KvStorage, bool, error) {
 		return st, false, nil
 	}
 	return nil, false, fmt.Errorf("unknown engine %q", kind)
+}
+
+// flakyOracle fails GetTimestamp while the world says so: a placement-driver outage, seen by every client
+// connection alike, below the storage adapter.
+type flakyOracle struct {
+	oracle.Oracle
+	w *World
+}
+
+func (o *flakyOracle) GetTimestamp(ctx context.Context, opt *oracle.Option) (uint64, error) {
+	if o.w.TiKVOracleOutage > 0 {
+		o.w.TiKVOracleOutage--
+		o.w.TiKVOracleFailed++
+		return 0, errors.New("simulated placement driver: tso request failed")
+	}
+	return o.Oracle.GetTimestamp(ctx, opt)
 }
 
 // scanFaultClient counts the scan requests that reach the TiKV mock cluster and breaks one of them.
